@@ -1,13 +1,5 @@
-mod adapter;
-mod cli;
-mod gen;
-mod ir;
-mod ops;
-mod props;
-mod runner;
-mod sem;
-
-use runner::*;
+use pv::runner::*;
+use pv::{adapter, gen, ir, ops, props, runner, sem};
 
 fn usage() -> ! {
     eprintln!("usage: pv check <ID> [quick|thorough] | pv replay <file> | pv selftest");
